@@ -8,7 +8,7 @@ import (
 
 func init() {
 	props["C03"] = c03
-	floors["C03"] = map[string]int{"C03.R1": 4, "C03.R2": 2, "C03.R3": 4, "C03.R5": 1, "C03.R6": 1, "C03.R7": 1}
+	floors["C03"] = map[string]int{"C03.R1": 4, "C03.R2": 2, "C03.R3": 4, "C03.R5": 1, "C03.R6": 1, "C03.R7": 1, "C03.R8": 1}
 }
 
 // synth502 checks, for an upstream-contact call whose error is tested, that
@@ -202,6 +202,27 @@ func c03(r *Report) {
 	c03R4(r)
 	c03R6(r)
 	c03R7(r)
+	r.Guard("C03.R8", "after the 502 for a failed CONNECT the client connection continues: the exit does not hand the dial error to the connection loop", func() {
+		cc := plainCalls(hcr, "(*M.Proxy).connect")
+		if len(cc) != 1 {
+			r.Undecided("(*M.Proxy).handleConnectRequest: connect", "UNRESOLVED")
+			return
+		}
+		tests := errTests(cc[0])
+		if len(tests) != 1 {
+			r.Undecided("(*M.Proxy).handleConnectRequest: connect error", "UNRESOLVED: not tested exactly once")
+			return
+		}
+		for k, ret := range returns(hcr) {
+			if !edgeDominatesNonNil(tests[0], ret.Block()) {
+				continue
+			}
+			if kind, _ := exitKind(hcr, ret); kind == "hijack" {
+				continue
+			}
+			connectFailureReturn(r, hcr, cc[0], ret, k)
+		}
+	})
 
 	r.Guard("C03.R5", "an origin that aborts a blind tunnel does not leave the client hanging: the end of a copy direction is passed on however the copy ended", func() {
 		tunnelEOSRule(r, hcr, tunnelCopiers(hcr))
